@@ -38,4 +38,4 @@ def mon(text, run, run_ra):
 
 def run(ctx):
     th = ctx.tier == "thorough"
-    pipe_stream.run(ctx, [("C18", mon)], 1500 if th else 170, n_ra=1.0)
+    pipe_stream.run(ctx, [("C18", mon)], 1200 if th else 120, n_ra=1.0, n_boundary=1500 if th else 160)
